@@ -23,8 +23,10 @@ What is varied (the compiler sees genuine edits / options):
     cmd  = k               --cflags=-DK=<k>;  k >= 100 additionally --release (the generated C of these programs is the
                            same with and without --release, so it is purely a change of the compiler command)
     cc   = w               the WORLD: w % 10 = the compiler behind the (constant) --cc wrapper (0 gcc, 1 clang),
-                           w // 10 = the version of a C header the program includes with cinclude (an edit of it
-                           changes neither the generated C nor the command nor ccinfo)
+                           (w // 10) % 10 = the version of a C header found through `## cincdir` (since 304728c its
+                           content is part of the heading hash), w // 100 = the version of a C header found only
+                           through --cflags -I (an edit of it changes neither the generated C nor the command nor
+                           anything the heading hash covers)
     nohead                 -P nocheading         nocache   --no-cache
     out                    -o <scratch>/out/o<n>  (the artefact is then executed by the replayer)
 """
@@ -77,14 +79,16 @@ def main_source(slot, code, hdrd="."):
     return ("require 'cval%d'\n"
             "## cinclude '\"c08hdr.h\"'\n"
             "## cincdir '%s'\n"
+            "## cinclude '\"c08hdrx.h\"'\n"
             "local HV: cint <cimport,nodecl>\n"
+            "local HX: cint <cimport,nodecl>\n"
             "## local d = DVAL or 0\n"
             "## cemit '#ifdef __clang__\\n#define CCID 1\\n#else\\n#define CCID 0\\n#endif\\n#ifndef K\\n#define K 0\\n#endif\\n'\n"
             "%s"
             "local CCID: cint <cimport,nodecl>\n"
             "local K: cint <cimport,nodecl>\n"
             "local MAINVAL <comptime> = %d\n"
-            "print('code', MAINVAL*4 + MODVAL*2 + #[d]#, 'K', K, 'cc', CCID + 10*HV)\n" % (slot, hdrd, bad, a))
+            "print('code', MAINVAL*4 + MODVAL*2 + #[d]#, 'K', K, 'cc', CCID + 10*HV + 100*HX)\n" % (slot, hdrd, bad, a))
 
 
 def mod_source(code):
@@ -111,7 +115,8 @@ class Replayer:
         self.cache = os.path.join(hdir, "cache")
         self.outd = os.path.join(hdir, "out")
         self.hdrd = os.path.join(hdir, "hdr")
-        for d in (self.cache, self.outd, self.hdrd, os.path.join(hdir, "srcA"), os.path.join(hdir, "srcB")):
+        self.hdrxd = os.path.join(hdir, "hdrx")
+        for d in (self.cache, self.outd, self.hdrd, self.hdrxd, os.path.join(hdir, "srcA"), os.path.join(hdir, "srcB")):
             os.makedirs(d)
         self.wrapper = os.path.join(hdir, "mycc")
         self.cur_cc = None
@@ -153,7 +158,7 @@ class Replayer:
         return (mtime_ns + self.shift * 10**9 - self.T0 * 10**9) // (10**9 // TPS)
 
     def args_of(self, s, cache, outp):
-        a = ["--verbose", "--cache-dir", cache, "--cc", self.wrapper, "--cflags=-DK=%d" % s["cmd"], "-DDVAL=%d" % (s["code"] % 2)]
+        a = ["--verbose", "--cache-dir", cache, "--cc", self.wrapper, "--cflags=-DK=%d -I %s" % (s["cmd"], self.hdrxd), "-DDVAL=%d" % (s["code"] % 2)]
         if s["cmd"] >= 100:
             a += ["--release"]
         if s["nohead"]:
@@ -170,7 +175,8 @@ class Replayer:
         sdir = os.path.join(self.hdir, "srcB" if (s["code"] // 4) % 2 == 1 else "srcA")
         write_if_differs(os.path.join(sdir, "slot%d.nelua" % s["slot"]), main_source(s["slot"], s["code"], self.hdrd))
         write_if_differs(os.path.join(sdir, "cval%d.nelua" % s["slot"]), mod_source(s["code"]))
-        write_if_differs(os.path.join(self.hdrd, "c08hdr.h"), "#define HV %d\n" % (s["cc"] // 10))
+        write_if_differs(os.path.join(self.hdrd, "c08hdr.h"), "#define HV %d\n" % ((s["cc"] // 10) % 10))
+        write_if_differs(os.path.join(self.hdrxd, "c08hdrx.h"), "#define HX %d\n" % (s["cc"] // 100))
         return sdir
 
     def nelua(self, args, cwd, kill=False):
